@@ -51,10 +51,11 @@ Collapse(a) ==
       [] OTHER -> a
 ForLang(lang, a) == IF lang = "typescript" THEN a ELSE Collapse(a)
 \* Go with the file-only option no_pointer_slice = true: a slice is nil-able as it stands, so an Option directly around a
-\* sequence is that sequence (documented purpose of the option); every other Option keeps its pointer
+\* sequence is that sequence (documented purpose of the option); every other Option keeps its pointer. A Vec<u8> that a container-
+\* instance mapping replaces ("Vec<u8>" = "[]byte") still counts as the slice it stands for.
 RECURSIVE SliceOpt(_)
 SliceOpt(a) ==
-    CASE a.k \in {"opt", "undef"} -> (LET x == SliceOpt(a.e) IN IF x.k = "seq" THEN x ELSE [k |-> "opt", e |-> x])
+    CASE a.k \in {"opt", "undef"} -> (LET x == SliceOpt(a.e) IN IF x.k \in {"seq", "mapped"} THEN x ELSE [k |-> "opt", e |-> x])
       [] a.k = "seq" -> [k |-> "seq", e |-> SliceOpt(a.e)]
       [] a.k = "map" -> [k |-> "map", key |-> SliceOpt(a.key), val |-> SliceOpt(a.val)]
       [] a.k = "user" -> [a EXCEPT !.args = [i \in 1..Len(a.args) |-> SliceOpt(a.args[i])]]
